@@ -184,7 +184,8 @@ func c05Edge(c *core.Ctx, idx int) {
 		for i := 0; i < n; i++ {
 			others = append(others, core.Pick(r, ids[otherStore(store)]))
 		}
-		count := core.Pick(r, []int{0, 1, 2, 3})
+		// counts that are no counts (negative, beyond int32) may be refused or read as a removal, but never stored
+		count := core.Pick(r, []int{0, 1, 2, 3, 1, 2, -1, -3, 1 << 31, 1 << 32, 1<<32 + 2})
 		var before *dump.Dump
 		_ = e.Db.View(func(tx *bbolt.Tx) error { before = dump.Tx(tx); return nil })
 		st := sc.St(store)
@@ -242,6 +243,9 @@ func c05Edge(c *core.Ctx, idx int) {
 			outcome = "error"
 		}
 		c.Cover("edge_op", kind+":"+outcome)
+		if kind == "rcset" && (count < 0 || count > 2147483647) {
+			c.Count("set_link_count_with_a_value_that_is_no_count", 1)
+		}
 		c.Nontrivial("edge", cell, outcome)
 		var after *dump.Dump
 		var links *edgeLinks
@@ -280,7 +284,7 @@ func c05Edge(c *core.Ctx, idx int) {
 					}
 				}
 			case "rcset":
-				if exists && count > 0 && mineRc[others[0]] != int32(count) {
+				if exists && count > 0 && count <= 2147483647 && mineRc[others[0]] != int32(count) {
 					c.Violationf("C05 edge ids: SetLinkCount reported success but the count differs: "+cell, info, "count %d stored %d", count, mineRc[others[0]])
 				}
 			}
